@@ -2,11 +2,11 @@ from vdriver import U
 from treeshapes import avl_shapes
 
 PROPERTY = {
-    "level": "other",
+    "level": "proof",
     "explanation": "the real insert / remove / lookup code run on EVERY valid AVL tree of depth <= 3 (<= 7 nodes; one unit per tree shape, keys/positions symbolic; depth <= 4 = up to 15 nodes in the thorough tier), every key position (new or resident) and every node to remove; the result is judged by a recursive checker over the actual links (search order, parent links, stored balance factor == height difference, |difference| <= 1) and by node count + lookups (element set)",
     "trusted_base": ["cbmc 6.11.0 (SAT back end CaDiCaL)"],
     "assumptions": [
-        "induction over histories: every operation is verified from every valid tree of the bounded depth; deeper trees are not covered (the unbounded window lemmas of DESIGN.md section 5 for a_avl_rotate/rotate2/handle_growth were demonstrated in the design probes, 0.9-5 s, but are not part of this build)",
+        "induction over histories: every operation is verified from every valid tree of the bounded depth; UNBOUNDED part: window lemmas avl_lemma_growth / avl_lemma_shrink prove the retrace steps a_avl_handle_growth / a_avl_handle_shrink (with a_avl_rotate / a_avl_rotate2, packed layout) for subtrees of every size (ghost heights up to 2^20): valid window + height restored, or the step invariant one level up; the induction over the climb loop is a paper step. The glue (descent, first adjustment, successor splice in a_avl_handle_remove) is decided only on the bounded whole trees",
         "whole-tree units use the node layout with separate parent/factor fields (A_SIZE_POINTER=1): cbmc cannot propagate pointers through the packed parent word ((uintptr)parent | factor+1) and the packed whole-tree encoding needs > 40 GB. The packed layout is covered by accessor round-trip proofs (unit packed_accessors, all parent pointers and factors/colours) and, in the thorough tier only, by packed whole-tree units on trees of depth <= 2 (heavy: minutes and tens of GB); the few layout-specific lines outside the accessors (a_avl_handle_remove copies the packed word) are only exercised there",
         "the comparison callback returns the key difference (any magnitude): only its sign may be used",
     ],
@@ -26,9 +26,9 @@ for m in avl_shapes(3):
     if m:
         UNITS.append(T("avl_remove_d3_s%02x" % m, "h_remove", 3, defs=["A_SIZE_POINTER=1", "SHAPE=0x%x" % m], functions=REM, bound=b, timeout=900))
 UNITS += [
-    U("avl_lemma_growth", "avl_lemma.c", "h_growth", level="L", functions=["a_avl_handle_growth", "a_avl_rotate", "a_avl_rotate2"], replay=RP, min_obl=3, unwind=5,
+    U("avl_lemma_growth", "avl_lemma.c", "h_growth", level="L", functions=["a_avl_handle_growth", "a_avl_rotate", "a_avl_rotate2"], replay={"prog": "trees_search.c", "sources": ["avl.c"], "mode": "avl", "timeout": 600}, min_obl=3, unwind=5,
       cbmc=["--object-bits", "10"], solver="cadical", timeout=600, key=["handle_growth"]),
-    U("avl_lemma_shrink", "avl_lemma.c", "h_shrink", level="L", functions=["a_avl_handle_shrink", "a_avl_rotate", "a_avl_rotate2"], replay=RP, min_obl=3, unwind=5,
+    U("avl_lemma_shrink", "avl_lemma.c", "h_shrink", level="L", functions=["a_avl_handle_shrink", "a_avl_rotate", "a_avl_rotate2"], replay={"prog": "trees_search.c", "sources": ["avl.c"], "mode": "avl", "timeout": 600}, min_obl=3, unwind=5,
       cbmc=["--object-bits", "10"], solver="cadical", timeout=600, key=["handle_shrink"]),
     U("avl_packed_accessors", "trees.c", "h_packed", level="P", functions=["a_avl_set_parent_factor", "a_avl_set_parent", "a_avl_set_factor", "a_avl_parent", "a_avl_factor", "a_avl_init"], replay=RP, min_obl=3, defines=["D=2"], cbmc=["--object-bits", "10"]),
     T("avl_insert_d2_packed", "h_insert", 2, tiers=("thorough",), functions=INS, timeout=1800, cost=100, mem_gb=40),
